@@ -258,6 +258,7 @@ class Engine:
         for k in ('paths', 'solver_calls', 'solver_s', 'steps', 'forks', 'pruned'):
             s.stats.setdefault(k, 0)
         s.level = 0
+        s.on_return = None   # history mode: called when the outermost frame returns; may push the next call
         s.trace = False
         s.fns_seen = set()
 
@@ -732,6 +733,12 @@ class Engine:
                 st.frames.pop()
                 if not st.frames:
                     st.result = ret
+                    if s.on_return is not None:
+                        r = s.on_return(s, st)
+                        if r == 'continue':
+                            continue
+                        if isinstance(r, list):
+                            return r
                     s.finish_path(st, 'ok')
                     return None
                 caller = st.frames[-1]
@@ -787,6 +794,11 @@ class Engine:
         args = [s.operand(st, fr, a) for a in argops]
         # 1. crate-local function?
         fn = s.inst.resolve_fn(s, fr, callee, args)
+        if fn is not None and fn.name.split('::')[-1] in s.inst.summaries:
+            v = s.inst.summaries[fn.name.split('::')[-1]](s, st, fr, args)
+            s.stats['summaries'] = s.stats.get('summaries', 0) + 1
+            s.ret_value(st, fr, stmt, v)
+            return None
         if fn is not None:
             if ret is None:
                 raise Unsupported('diverging crate call ' + callee)
